@@ -6038,8 +6038,8 @@ class CodegenCtx:
                     range_start = i
                     range_end = i
 
-            if range_end - range_start >= ProgramData.option(ProgramOption.COLLAPSED_RANGE_LENGTH):
-                # this is a valid range
+            if range_start < len(on_values_remaining) and range_end - range_start >= ProgramData.option(ProgramOption.COLLAPSED_RANGE_LENGTH):
+                # this is a valid range (there may be no character at all to start one: a transition on end-of-input alone)
                 for j in range(range_start, range_end+1):
                     used.append(on_values_remaining[j])
                 checks.append(self._generate_range_check(on_values_remaining[range_start], on_values_remaining[range_end]))
